@@ -34,10 +34,10 @@ def run(ctx):
     else:
         n1 = textlib.mc_and_generate(ctx, "text/MC_Bpe", "text/MC_Bpe_k3m2l6.cfg", vec, workers=8, timeout=1800)
         n2 = textlib.mc_and_generate(ctx, "text/MC_Bpe", "text/MC_Bpe_k2m3l6.cfg", vec, workers=8, timeout=1800)
-        n3 = textlib.mc_and_generate(ctx, "text/MC_Bpe", "text/MC_Bpe_k3m3l4.cfg", vec, workers=8, timeout=2400, heap="12g")
+        n3 = textlib.mc_and_generate(ctx, "text/MC_Bpe", "text/MC_Bpe_k3m3l4wo.cfg", vec, workers=8, timeout=2400, heap="12g")
         n = n1 + n2 + n3
         bounds = ("every closed table in every order x every string, replayed completely: {1,2,3}/<=2 pairs/len<=6 (%d vectors), "
-                  "{1,2}/<=3 pairs/len<=6 (%d), {1,2,3}/<=3 pairs/len<=4 (%d)" % (n1, n2, n3))
+                  "{1,2}/<=3 pairs/len<=6 (%d), {1,2,3}/<=3 pairs in training order only/len<=4 (%d)" % (n1, n2, n3))
         exhaustive = True
         cases = vec
     trace = ctx.path("merge.ndjson")
